@@ -284,7 +284,9 @@ func checkC16(c *Ctx, r *Report) {
 	rlT := an2 + ".rateLimiter"
 	if acc := r5.need(acceptK); acc != nil {
 		writes := findInstrs(acc, func(in ssa.Instruction) bool {
-			return isFieldWrite(in, rlT+".inProgressReqs") || isFieldWrite(in, rlT+".reqs") || isFieldWrite(in, rlT+".peerReqs")
+			// the admission: directly, or in a helper that counts the request as in progress
+			return isFieldWrite(in, rlT+".inProgressReqs") || isFieldWrite(in, rlT+".reqs") || isFieldWrite(in, rlT+".peerReqs") ||
+				writesLike(in, fieldWritePred(rlT+".inProgressReqs"), 2)
 		})
 		lenOf := func(field string) func(ssa.Value) bool {
 			return func(v ssa.Value) bool {
@@ -309,13 +311,20 @@ func checkC16(c *Ctx, r *Report) {
 		for _, ret := range returnsOf(acc) {
 			if b, ok := constBool(retVal(ret, 0)); ok && b {
 				w, n := (&Cut{Fn: acc, Target: func(in ssa.Instruction) bool { return in == ssa.Instruction(ret) },
-					Sep: func(in ssa.Instruction) bool { return isFieldWrite(in, rlT+".inProgressReqs") }}).Run(c)
+					Sep: func(in ssa.Instruction) bool { return passesLike(in, fieldWritePred(rlT+".inProgressReqs"), 2) }}).Run(c)
 				r5.Check(w == "", acceptK+": return true passes inProgressReqs[p]++", instrPos(ret), n+1, "", "accepts without recording the request", w)
 			}
 		}
 	}
 	if acc := r5.need(acceptDDK); acc != nil {
-		writes := findInstrs(acc, fieldWritePred(rlT+".dialDataReqs"))
+		isDDAppend := func(in ssa.Instruction) bool {
+			st, ok := in.(*ssa.Store)
+			return ok && isFieldWrite(in, rlT+".dialDataReqs") && derivesFrom(st.Val, func(v ssa.Value) bool {
+				call, isC := v.(*ssa.Call)
+				return isC && calleeKey(call) == "builtin.append"
+			})
+		}
+		writes := findInstrs(acc, func(in ssa.Instruction) bool { return writesLike(in, isDDAppend, 2) })
 		r5.guard(acc, "append dialDataReqs", writes, "!closed", edgeBool(isLoadOfField(rlT+".closed"), false), nil)
 		r5.guard(acc, "append dialDataReqs", writes, "len(dialDataReqs) < DialDataRPM", edgeExcl(func(v ssa.Value) bool {
 			call, _ := strip2(v).(*ssa.Call)
@@ -324,7 +333,7 @@ func checkC16(c *Ctx, r *Report) {
 		for _, ret := range returnsOf(acc) {
 			if b, ok := constBool(retVal(ret, 0)); ok && b {
 				w, n := (&Cut{Fn: acc, Target: func(in ssa.Instruction) bool { return in == ssa.Instruction(ret) },
-					Sep: fieldWritePred(rlT + ".dialDataReqs")}).Run(c)
+					Sep: func(in ssa.Instruction) bool { return passesLike(in, isDDAppend, 2) }}).Run(c)
 				r5.Check(w == "", acceptDDK+": return true passes the append", instrPos(ret), n+1, "", "accepts a dial-data request without recording it", w)
 			}
 		}
